@@ -18,7 +18,8 @@ REQUIRED = ['ci_linear', 'ci_log', 'ci_contains', 'ci_nested', 'ci_exp_contains'
             'pool_reject_iff', 'pool_def', 'pool_var_nonneg', 'pool_agree', 'msm_var_nonneg', 'msm_mean_solves',
             'real_transc_ok', 'real_ratio_ci',
             'xfit_ic_rd_generated', 'xfit_ic_rr_generated', 'xfit_ic_or_generated', 'xfit_estimates_generated',
-            'aipw_calc_ratio_var_generated']
+            'aipw_calc_ratio_var_generated',
+            'joint_estimate_generated']
 RULE = ('alpha runs over a fixed grid (25 equally spaced values in (0,1), the extremes 1e-6/1e-3/0.999, and 0.05 with its '
         'neighbours 0.049999/0.050001); for every (estimator, configuration, data set) the whole grid is evaluated and the '
         'limits, containment, nestedness across the grid and alpha-independence of estimate/se are judged; streams: count '
